@@ -61,7 +61,7 @@ ENGINES["file"] = dict(
 
 ENGINES["filec"] = dict(
     drv="filec", starts=("freset",), trivial=r"$^", noshrink=True,
-    branches=["fhammer4", "fhammer6", "fhammer.old-and-new-seen", "fsetup4.ok", "fsetup6.ok", "fq4.listed", "fq6.listed"],
+    branches=["fhammer4", "fhammer6", "fhammer.old-and-new-seen", "fpair", "fsetup4.ok", "fsetup6.ok", "fq4.listed", "fq6.listed"],
 )
 
 # sys: the driver says which part of the reply differs from the composed model's (DIVERGE dom[sent,header,addr,opts,dest,relay]);
@@ -92,9 +92,9 @@ ENGINES["serve"] = dict(
 )
 
 ENGINES["chain"] = dict(drv="chain", starts=("ccfg",), trivial=r"=> drop$", branches=["chain.cfg4.ok", "chain.cfg6.ok", "chain.drop", "chain.send"])
-ENGINES["allocc"] = dict(drv="alloc", starts=("new6", "new4"), trivial=r"$^", branches=["batch", "arace"], noshrink=True)
+ENGINES["allocc"] = dict(drv="alloc", starts=("new6", "new4"), trivial=r"$^", branches=["batch", "arace", "afrace"], noshrink=True)
 ENGINES["rangec"] = dict(drv="range", starts=("rsetup",), trivial=r"$^", branches=["batch"], noshrink=True)
-ENGINES["prefixc"] = dict(drv="prefix", starts=("psetup",), trivial=r"$^", branches=["batch"], noshrink=True)
+ENGINES["prefixc"] = dict(drv="prefix", starts=("psetup",), trivial=r"$^", branches=["batch", "prefix.prace"], noshrink=True)
 ENGINES["dispatch4c"] = dict(drv="dispatch4", starts=(), trivial=r"=> U ; drop ; inv -$", branches=[])
 
 ENGINES["config"] = dict(drv="config", starts=(), trivial=r"=> unreadable ; err$",
@@ -155,7 +155,8 @@ PROPS = {
                      "plugin names reach the loader lower-cased by viper"],
     ),
     "C01": dict(
-        engines=[("chain", 2500, 60000), ("dispatch4", 3000, 60000), ("dispatch6", 3000, 60000), ("prefix", 1500, 30000), ("filec", 40, 250), ("sys", 1500, 30000), ("serve", 6, 60)],
+        engines=[("chain", 2500, 60000), ("dispatch4", 3000, 60000), ("dispatch6", 3000, 60000), ("prefix", 1500, 30000), ("filec", 40, 250), ("sys", 1500, 30000), ("serve", 6, 60),
+                 ("prefixc", 600, 6000), ("rangec", 300, 3000), ("allocc", 600, 6000)],
         theorems=["C01_dispatch4", "C01_dispatch6", "C01_range_never_panics", "C01_alloc6_never_bug", "C01_alloc4_never_panics", "C01_chain_bounded"],
         modules=["CoreDhcp.Props.C01"],
         facts=["F1", "F2", "F5", "F10"],
@@ -185,7 +186,7 @@ PROPS = {
         assumptions=["a refresh is one atomic table swap (recLock held by defer in loadFromFile, file parsed before the lock; readers hold RLock): fact F11, and the filec engine"],
     ),
     "C08": dict(
-        engines=[("prefix", 2500, 40000)],
+        engines=[("prefix", 2500, 40000), ("prefixc", 800, 10000)],
         theorems=["C08_holds"],
         modules=["CoreDhcp.Props.C08"],
         facts=["F1", "F6"],
@@ -193,7 +194,7 @@ PROPS = {
         assumptions=["each message is one atomic step (handler mutex held for the whole call by defer: fact F1)", "the clock does not run backwards between messages"],
     ),
     "C09": dict(
-        engines=[("prefix", 2500, 40000)],
+        engines=[("prefix", 2500, 40000), ("prefixc", 800, 10000)],
         theorems=["C09_holds", "C09_frame"],
         modules=["CoreDhcp.Props.C09"],
         facts=["F1"],
@@ -242,7 +243,7 @@ PROPS = {
                      "sequential histories; concurrent schedules reduce to them by F1 (see C16)"],
     ),
     "C03": dict(
-        engines=[("range", 2500, 40000)],
+        engines=[("range", 2500, 40000), ("rangec", 600, 8000)],
         theorems=["C03_holds", "C03_restore", "C03_D7_prefix_refuted", "C03_key_roundtrip", "C03_macString_injective", "C03_parse_macString", "C03_hkey_total", "C03_holds_concrete", "C03_restore_concrete"],
         modules=["CoreDhcp.Props.C03", "CoreDhcp.Props.C03Key"],
         trusted_base=[TB_BITSET, TB_SQLITE, TB_CLOCK],
@@ -277,14 +278,14 @@ PROPS = {
         assumptions=["bitset.New returned a set of the requested length (pools up to 2^24 blocks are modelled in the driver; the full IPv4 range is exercised by a direct history in the harness)"],
     ),
     "C06": dict(
-        engines=[("alloc6", 6000, 120000), ("alloc4", 6000, 120000)],
+        engines=[("alloc6", 6000, 120000), ("alloc4", 6000, 120000), ("allocc", 1000, 15000)],
         theorems=["C06_alloc6", "C06_alloc4", "C06_error_unchanged6", "C06_error_unchanged4", "C06_D2_prefix_refuted"],
         modules=["CoreDhcp.Props.C06"],
         trusted_base=[TB_BITSET, TB_STD],
         assumptions=["Free is given a well-formed prefix no shorter than the allocation size (the property's quantifier); shorter prefixes are executed and logged as drift only"],
     ),
     "C07": dict(
-        engines=[("alloc6", 6000, 120000), ("alloc4", 6000, 120000)],
+        engines=[("alloc6", 6000, 120000), ("alloc4", 6000, 120000), ("allocc", 1000, 15000)],
         theorems=["C07_alloc6", "C07_alloc4"],
         modules=["CoreDhcp.Props.C07"],
         trusted_base=[TB_BITSET, TB_STD],
